@@ -45,10 +45,13 @@ def api_history(ctx, prop="C05"):
     many = policy != 1 and t.flag(0.6 if prop == "C11" else 0.3, "many_keys")
     n_keys = t.randint(10, 14, "n_keys") if many else t.randint(2, 4, "n_keys")
     shift = t.choice(n_keys, "key_shift") if many else 0
-    keys = [(float((k + shift) % n_keys), float(k % 2), 1) for k in range(n_keys)]
+    keys = [(float((k + shift) % n_keys), float(k % 2), 1, False) for k in range(n_keys)]
     if not many and t.flag(0.3, "size_variants"):
-        # the same numbers in arrays of different sizes are different inputs, whatever the tolerance
-        keys = [(2.0, 2.0, 1), (2.0, 2.0, 2), (2.0, 2.0, 3), (0.0, 0.0, 1)][:n_keys]
+        # the same numbers in arrays of different sizes or shapes are different inputs, whatever the tolerance; a flat
+        # array and a one-row matrix holding the same numbers even share their bytes, hence their hash
+        keys = [(2.0, 2.0, 1, False), (2.0, 2.0, 2, False), (2.0, 2.0, 2, policy != 1), (2.0, 2.0, 3, False)][:n_keys]
+        keys = list(dict.fromkeys(keys))  # (a last-entry cache holds one entry: no one-row variant there)
+        n_keys = len(keys)
         ctx.probe("inputs_differing_by_size_only")
     model = {}  # key -> {"out": value or None, "jac": value or None}; SimpleCache: at most one key
     ops = []
@@ -57,12 +60,16 @@ def api_history(ctx, prop="C05"):
     cl = {"C05": ("C05.cache_protocol", "C05.entries", "C05.entries"), "C11": ("C11.cache_reload", "C11.cache_reload", "C11.cache_order")}[prop]
 
     def inp(k):
-        return {"a": array([k[0], 1.0]), "b": array([k[1]] * k[2])}
+        b = array([k[1]] * k[2])
+        return {"a": array([k[0], 1.0]), "b": b[None, :] if k[3] else b}
 
     def strided(d):
         # the same values as non-contiguous views of larger buffers: the same input for a cache
         out = {}
         for n, v in d.items():
+            if v.ndim != 1:
+                out[n] = v
+                continue
             buf = array([9.0] * (2 * len(v)))
             buf[::2] = v
             out[n] = buf[::2]
@@ -97,13 +104,17 @@ def api_history(ctx, prop="C05"):
         if n != len(model):
             ctx.violate(cl[1], sig, f"after {after}: {n} entries, {len(model)} inputs were stored; ops={ops}")
         if policy != 1:
-            listed = [(float(e.inputs["a"][0]), float(e.inputs["b"][0]), len(e.inputs["b"])) for e in cache.get_all_entries()]
+            listed = [(float(e.inputs["a"][0]), float(array(e.inputs["b"]).ravel()[0]), array(e.inputs["b"]).size, array(e.inputs["b"]).ndim == 2) for e in cache.get_all_entries()]
             if listed != list(model):
                 ctx.violate(cl[2], sig + " listing", f"after {after}: get_all_entries lists the inputs {listed}; they were stored in the order {list(model)}; ops={ops}")
             if many and after[0] == "reopen":
                 ctx.probe("reopened_with_ten_entries_or_more", int(len(model) >= 10))
 
     def store(op, k, val):
+        if k[3] and (k[0], k[1], k[2], False) not in model:
+            # (a flat query matches a stored one-row entry by design - the reverse is not true: the row variant is
+            # only stored once its flat twin is, so that both are distinct entries in the unchanged tree)
+            return False
         if op == 0:
             ops.append(("cache_outputs", k, val))
             cache.cache_outputs(inp(k), {"y": array([val])})
@@ -116,6 +127,7 @@ def api_history(ctx, prop="C05"):
         slot = "out" if op == 0 else "jac"
         if m[slot] is None:
             m[slot] = val
+        return True
 
     if many:
         for k in keys[: t.randint(9, n_keys, "n_prefilled")]:
@@ -130,7 +142,8 @@ def api_history(ctx, prop="C05"):
             counter[0] += 1
             val = float(counter[0])  # every written value is unique: each read is attributable to one write
             if op in (0, 1):
-                store(op, k, val)
+                if not store(op, k, val):
+                    continue
             elif op == 2 and (model or policy != 4):
                 ops.append(("clear",))
                 cache.clear()
